@@ -66,6 +66,39 @@ def run_life(sc, tier, notes):
     return dict(life_model_states=states, life_runs=len(cases), life_clause_failures=len(res["viol"]), life_divergences=len(res.get("div", [])))
 
 
+def run_ind(sc, notes):
+    """Apalache: Conservation is an inductive invariant of spec/AcctInd.tla (unbounded integers)."""
+    import os
+    import shutil
+    import subprocess
+    d = sc.path("apalache")
+    os.makedirs(d, exist_ok=True)
+    shutil.copy(os.path.join(core.SPEC, "AcctInd.tla"), d)
+    out = {}
+    for name, args in (("base", ["--init=Init", "--length=0"]), ("step", ["--init=IndInit", "--length=1"])):
+        try:
+            p = subprocess.run(["timeout", "600", "apalache-mc", "check", "--cinit=ConstInit", "--inv=IndInv", "--out-dir=" + os.path.join(d, "out")]
+                               + args + ["AcctInd.tla"], cwd=d, capture_output=True, text=True)
+            ok = "EXITCODE: OK" in p.stdout
+        except Exception as e:  # tool missing etc.
+            ok = False
+            notes.append("Apalache could not run: %s" % e)
+        out["apalache_%s" % name] = "proved" if ok else "NOT proved"
+        if not ok:
+            notes.append("Apalache did not prove the %s case of the inductive invariant of AcctInd.tla" % name)
+    return out
+
+
+def ind_phase():
+    def ph(sc, v):
+        try:
+            return run_ind(sc, v.notes)
+        except Exception as e:
+            v.notes.append("inductive-invariant phase could not run: %s" % str(e)[:300])
+            return dict(apalache="not run")
+    return ph
+
+
 def phase(tier):
     def ph(sc, v):
         try:
@@ -79,7 +112,7 @@ def phase(tier):
 def main(tier, name="cgf"):
     sc = core.Scratch(name)
     notes = []
-    cov = run(sc, tier, notes) if name == "cgf" else run_life(sc, tier, notes)
+    cov = run(sc, tier, notes) if name == "cgf" else (run_life(sc, tier, notes) if name == "life" else run_ind(sc, notes))
     print(json.dumps(cov, indent=1))
     for x in notes:
         print("NOTE:", x)
